@@ -154,3 +154,66 @@ pub fn fake_give_terminal_to(gid: i32) -> bool {
     }
     true
 }
+
+// ---- event sink: one ndjson line per event, appended to $CICADA_VERIF_TRACE ----
+// The file is opened (O_APPEND | O_CLOEXEC), written and closed per event, so no
+// descriptor is held between events and nothing is inherited by children.
+
+lazy_static! {
+    static ref DEPTH: Mutex<i64> = Mutex::new(0);
+}
+
+pub fn trace_enabled() -> bool {
+    std::env::var_os("CICADA_VERIF_TRACE").is_some()
+}
+
+pub fn depth_inc() -> i64 {
+    let mut d = DEPTH.lock().unwrap();
+    *d += 1;
+    *d
+}
+
+pub fn depth_dec() {
+    let mut d = DEPTH.lock().unwrap();
+    *d -= 1;
+}
+
+pub fn jstr(s: &str) -> String {
+    let mut o = String::from("\"");
+    for c in s.chars() {
+        match c {
+            '"' => o.push_str("\\\""),
+            '\\' => o.push_str("\\\\"),
+            '\n' => o.push_str("\\n"),
+            '\r' => o.push_str("\\r"),
+            '\t' => o.push_str("\\t"),
+            c if (c as u32) < 0x20 => o.push_str(&format!("\\u{:04x}", c as u32)),
+            c => o.push(c),
+        }
+    }
+    o.push('"');
+    o
+}
+
+/// Append one event.  `fields` are (name, already-JSON-encoded value) pairs.
+pub fn event(name: &str, fields: &[(&str, String)]) {
+    let path = match std::env::var_os("CICADA_VERIF_TRACE") {
+        Some(p) => p,
+        None => return,
+    };
+    use std::io::Write;
+    use std::os::unix::fs::OpenOptionsExt;
+    let mut line = format!("{{\"e\":{},\"pid\":{}", jstr(name), unsafe { libc::getpid() });
+    for (k, v) in fields {
+        line.push_str(&format!(",{}:{}", jstr(k), v));
+    }
+    line.push_str("}\n");
+    if let Ok(mut f) = std::fs::OpenOptions::new()
+        .append(true)
+        .create(true)
+        .custom_flags(libc::O_CLOEXEC)
+        .open(path)
+    {
+        let _ = f.write_all(line.as_bytes());
+    }
+}
